@@ -49,6 +49,7 @@ ASSUMPTIONS = [
 ]
 BUDGET = {"quick": 50, "thorough": 900}
 
+ABSENT_KEY = "absent-\xe9-key"  # non-ASCII: can never be one of the generated (ASCII) keys
 HDR = b"XPAKPACK"
 TPRE = b"XPAKSTOP"
 TPOST = b"STOP"
@@ -267,7 +268,7 @@ def check_case(ctx, case):
                     if k not in y or y[k] != v or y.get(k) != v:
                         out.append(("getitem", f"[{k!r}] -> {_short([(k, y.get(k))])}"))
                         break
-                if "no such key\x01" in y or y.get("no such key\x01", 7) != 7:
+                if ABSENT_KEY in y or y.get(ABSENT_KEY, 7) != 7:
                     out.append(("missing-key", "absent key found"))
                 with open(path, "rb") as fo:
                     z = xpak.Xpak(fo)
